@@ -36,6 +36,45 @@ func c01Seed7(r *Report) {
 // monotoneFlags: every boolean that a loop of fn carries from one iteration to the next (a bool phi in a loop header) only
 // ever moves ONE way inside the loop: the values merged into it on the way round are itself and one constant (the opposite of
 // its initial value). `flag = cond` inside the loop (the last element decides) and a reset to the initial value both fail.
+// monotoneFlagsIn applies monotoneFlags to every production function of the given packages that carries a boolean over a loop.
+func monotoneFlagsIn(r *Report, id string, min int, pkgs ...string) {
+	p := r.P
+	n := 0
+	for _, fn := range p.Funcs {
+		if fn.Pkg == nil || p.FileClass(p.FuncPos(fn)) != "prod" || len(fn.Blocks) == 0 {
+			continue
+		}
+		in := false
+		for _, pk := range pkgs {
+			if strings.HasSuffix(fn.Pkg.Pkg.Path(), "/"+pk) {
+				in = true
+			}
+		}
+		if !in {
+			continue
+		}
+		has := false
+		for _, l := range Loops(fn) {
+			for _, ins := range l.Header.Instrs {
+				phi, ok := ins.(*ssa.Phi)
+				if !ok {
+					break
+				}
+				if b, isB := phi.Type().Underlying().(*types.Basic); isB && b.Kind() == types.Bool {
+					has = true
+				}
+			}
+		}
+		if has {
+			n++
+			monotoneFlags(r, id, fn, 1)
+		}
+	}
+	if n < min {
+		r.Lost(id, "ARG: loop-carried boolean flags are sticky", fmt.Sprintf("%d function(s) with such a flag in %v, expected >= %d", n, pkgs, min))
+	}
+}
+
 func monotoneFlags(r *Report, id string, fn *ssa.Function, min int) {
 	rule := "ARG: every boolean flag accumulated over a loop is sticky: inside the loop it is only ever set to one constant (never recomputed from the current element, never reset)"
 	if fn == nil {
@@ -59,26 +98,61 @@ func monotoneFlags(r *Report, id string, fn *ssa.Function, min int) {
 			var consts []bool
 			seen := map[ssa.Value]bool{phi: true}
 			var bad ssa.Value
+			var from *ssa.BasicBlock // the block over which the value currently walked arrives
+			derived := false         // a recomputed value known to equal a constant on the way back (the break idiom)
 			var walk func(v ssa.Value)
 			walk = func(v ssa.Value) {
-				if seen[v] {
-					return
-				}
-				seen[v] = true
 				if c, isC := ConstBool(v); isC {
 					consts = append(consts, c)
 					return
 				}
 				if ph, isPhi := v.(*ssa.Phi); isPhi && l.Body[ph.Block()] {
-					for _, e := range ph.Edges {
+					if seen[v] {
+						return
+					}
+					seen[v] = true
+					for i, e := range ph.Edges {
+						from = ph.Block().Preds[i]
 						walk(e)
 					}
 					return
+				}
+				// `flag = f(x); if !flag { break }`: the value is recomputed, but the loop only goes round while it equals one
+				// constant (the test dominates the way back): that is the same sticky flag
+				if from != nil {
+					// the back edge itself is the true/false edge of a test of the value
+					if iff, isIf := from.Instrs[len(from.Instrs)-1].(*ssa.If); isIf && len(from.Succs) == 2 && from.Succs[0] != from.Succs[1] {
+						atom, neg := iff.Cond, false
+						for {
+							u, isNot := atom.(*ssa.UnOp)
+							if !isNot || u.Op != token.NOT {
+								break
+							}
+							atom, neg = u.X, !neg
+						}
+						if atom == v {
+							for i, sc := range from.Succs {
+								if sc == l.Header {
+									consts = append(consts, (i == 0) != neg)
+									derived = true
+									return
+								}
+							}
+						}
+					}
+					for _, c := range []bool{true, false} {
+						if FactHoldsValue(from, func(x ssa.Value) bool { return x == v }, c) {
+							consts = append(consts, c)
+							derived = true
+							return
+						}
+					}
 				}
 				bad = v
 			}
 			for i, e := range phi.Edges {
 				if l.Body[l.Header.Preds[i]] {
+					from = l.Header.Preds[i]
 					walk(e)
 				}
 			}
@@ -95,7 +169,7 @@ func monotoneFlags(r *Report, id string, fn *ssa.Function, min int) {
 			// the constant set inside the loop differs from the initial value
 			for i, e := range phi.Edges {
 				if !l.Body[l.Header.Preds[i]] {
-					if c, isC := ConstBool(e); isC && len(consts) > 0 && c == consts[0] {
+					if c, isC := ConstBool(e); isC && !derived && len(consts) > 0 && c == consts[0] {
 						r.Bad(key, rule, r.P.Pos(phi.Pos()), "the loop only ever re-assigns the initial value: the flag cannot record anything")
 						return
 					}
